@@ -386,6 +386,7 @@ func c16(c *Ctx) {
 	}
 	bcd13 := []byte{0x01, 0x38, 0x00, 0x13, 0x80, 0x00}
 	bcd19 := []byte{0, 0, 0, 0, 0x01, 0x38, 0x00, 0x13, 0x80, 0x00}
+	overN := 0
 	for i := 0; i < nsock; i++ {
 		d := AttDialects[rng.Intn(len(AttDialects))]
 		v2019 := i%3 == 1
@@ -402,10 +403,13 @@ func c16(c *Ctx) {
 			ch = nil // 0x1212 before any chunk
 		}
 		over := false
+		firstJudged := 0
 		if i%40 == 14 || i == 4 {
 			// MORE ranges than one 0x9212 body of <= 1023 bytes can hold (8 bytes per range): 127..255 single-byte
 			// gaps - the property's "any count up to 255 gaps ... driven over a socket"
-			g := []int{127, 128, 200, 255}[rng.Intn(4)]
+			overN++
+			g := []int{127, 128, 200, 255}[overN%4]
+			c.Count(fmt.Sprintf("socket:over:%d-gaps", g))
 			size = uint64(2 * g)
 			ch = nil
 			for x := 0; x < g; x++ {
@@ -506,13 +510,17 @@ func c16(c *Ctx) {
 			c.Violate(Violation{Signature: "C16/socket/reply-over-1023", What: "completion response for more ranges than one frame can carry",
 				Input: req, Observed: fmt.Sprintf("panic=%q frames=%d split-ok=%v decode of the reply: %s (wire bytes=%d)", res.Panic, len(frames), ok, undecodable, len(res.Wire)),
 				Required: fmt.Sprintf("a decodable 0x9212 (or several) listing the %d missing ranges", len(want))})
-			continue
+			// the report after the resend (no ranges: it fits) and the file content are still judged
+			firstJudged = 1
 		}
 		if res.Panic != "" || !ok || len(frames) != 3 {
 			bad("replies", fmt.Sprintf("panic=%q frames=%d wire=%s", res.Panic, len(frames), Hx(res.Wire)), "three reply frames (0x8001, 0x9212, 0x9212)")
 			continue
 		}
 		for k, wantList := range [][]seg{want, nil} {
+			if k < firstJudged {
+				continue
+			}
 			id, _, _, _, body, ok := Parse808(frames[1+k])
 			rn, _, rres, cnt, list, ok2 := ref9212(body)
 			wantRes := byte(0)
